@@ -22,7 +22,7 @@ from pyvc import strings as S
 from pyvc.contract import Contract, register
 from pyvc.interp import PyRaise
 from pyvc.sym import SMap, SObj, SStr, StrSort, fresh_name, fresh_str, lit, mk_str
-from spec import v2 as S2, v3 as S3
+from spec import v2 as S2, v3 as S3, v4 as S4
 
 I = z3.IntSort()
 
@@ -114,6 +114,7 @@ class Grammar(object):
 
 G2 = Grammar("2", S2.VALUES, S2.BASE, [], 0)
 G3 = Grammar("3", S3.VALUES, S3.BASE, [("CVSS:3.0", 0), ("CVSS:3.1", 1)], 1)
+G4 = Grammar("4", S4.VALUES, S4.BASE, [("CVSS:4.0", None)], 1)
 
 
 class ParseInvariant(object):
@@ -245,3 +246,20 @@ class ParseVector3(ParseVector):
     module, qualname, cls = "cvss3", "CVSS3.parse_vector", "CVSS3"
     grammar = G3
     malformed = "CVSS3MalformedError"
+
+
+@register
+class ParseVector4(ParseVector):
+    module, qualname, cls = "cvss4", "CVSS4.parse_vector", "CVSS4"
+    grammar = G4
+    malformed = "CVSS4MalformedError"
+    modifies = frozenset(["metrics"])
+
+    def check_return(self, ctx, value):
+        g = self.grammar
+        saved = g.prefixes
+        try:
+            g.prefixes = []  # no minor version to check
+            ParseVector.check_return(self, ctx, value)
+        finally:
+            g.prefixes = saved
